@@ -832,7 +832,7 @@ func init() {
 //   fs      = sandbox before extraction: source tree, empty output directory
 //   roots   = ((tn <utree>)): what `car create` builds from the source, as the walk sees it
 //   opts    = (n<version 1|2> n<no-wrap> n<mode: 0 -f file, 1 stdin from a file, 2 stdin from a pipe>)
-//   src     = (b<source argument of car create> ((b<digest> n<seed> n<len> n<zero tail> n<chunk repeats> b<explicit> n<zero head>) ...))
+//   src     = (b<source argument of car create> | (b<source argument> ...)  ((b<digest> n<seed> n<len> n<zero tail> n<chunk repeats> b<explicit> n<zero head>) ...))
 //             recipes for contents longer than 64 bytes (the fs value carries only their digest)
 // observation: (status realroot fs-after (n<roots> n<printed = header root> n<root != proxy> n<root block present>))
 const proxyRootStr = "bafybeihdwdcefgh4dqkjv67uzcmw7ojee6xedzdetojuzjevtenxquvyku"
@@ -903,12 +903,20 @@ func runCreateExtractCase(c *Ctx, in Val) Val {
 	version := vn(vnth(opts, 0))
 	nowrap := vn(vnth(opts, 1)) != 0
 	mode := vn(vnth(opts, 2))
-	srcArg := string(sb.realStr(vb(vnth(vnth(in, 6), 0))))
+	var srcArgs []string
+	if l, ok := vnth(vnth(in, 6), 0).(VL); ok {
+		for _, a := range l {
+			srcArgs = append(srcArgs, string(sb.realStr(vb(a))))
+		}
+	} else {
+		srcArgs = []string{string(sb.realStr(vb(vnth(vnth(in, 6), 0))))}
+	}
 	args := []string{"create", "--version", strconv.FormatUint(version, 10)}
 	if nowrap {
 		args = append(args, "--no-wrap")
 	}
-	args = append(args, "-f", carPath, srcArg)
+	args = append(args, "-f", carPath)
+	args = append(args, srcArgs...)
 	debug := os.Getenv("VERIF_CLI_DEBUG") != ""
 	res := runCar(c, cwdReal, nil, args...)
 	if debug {
